@@ -22,7 +22,6 @@ import (
 	"os/exec"
 	"path/filepath"
 	"runtime"
-	"runtime/debug"
 	"runtime/pprof"
 	"sort"
 	"strconv"
@@ -196,7 +195,7 @@ func seqCases(quick bool) []seqCase {
 			emit(base, full, 1, compositions(1), r3)
 		}
 		emit("A1,B1,C1,D0", full, 2, compositions(2), r3)
-		emit("A1", corel, 2, compositions(2), r3)
+		emit("A1", mini, 2, compositions(2), r3)
 		emit("A1,B1,C1,D0", mini, 3, ends, r3)
 		return out
 	}
@@ -226,7 +225,6 @@ type workerOut struct {
 }
 
 func workerMain() {
-	debug.SetGCPercent(800) // tiny live heap, heavy short-lived allocation in the code under test (32 KiB event caches per block)
 	silence()
 	installCallback()
 	if pf := os.Getenv("C14_CPUPROF"); pf != "" {
@@ -347,7 +345,6 @@ func main() {
 	}
 	run := core.Start("C14", "model_checking", "XSTATE")
 	silence()
-	debug.SetGCPercent(400)
 
 	if run.ReplayPath != "" {
 		var probe struct {
